@@ -403,7 +403,7 @@ func (rb *Buffer) WriteTo(w io.Writer) (int64, error) {
 			panic("RingBuffer.WriteTo: invalid Write count")
 		}
 		rb.r = (rb.r + m) % rb.size
-		if rb.r == rb.w {
+		if m == n { // r == w also holds for a full buffer of which nothing was written
 			rb.Reset()
 		}
 		if err != nil {
